@@ -51,7 +51,7 @@ const T_BUDGET_MS: u64 = 6500;
 const T_PAR_PER_KIND: usize = 14;
 
 #[derive(Clone, Copy, PartialEq, Eq, Hash, Debug)]
-enum TApi {
+pub(super) enum TApi {
     Json,
     JsonT,
     /// call_with_formats_and_timeout: returns the whole message
@@ -123,7 +123,7 @@ pub(super) struct TPlan {
 }
 
 #[derive(Clone, Debug)]
-enum TRes {
+pub(super) enum TRes {
     Val(Value),
     Msg { id: u64, notify: u8, ec: u32, qf: u16, bf: u16, query: Vec<u8>, body: Vec<u8> },
     Err(ErrInfo),
@@ -187,13 +187,13 @@ pub(super) struct THist {
     ms: u64,
 }
 
-enum TPeer {
+pub(super) enum TPeer {
     Tcp { s: std::net::TcpStream, buf: Vec<u8> },
     Ws { ws: Box<tung::WebSocket<std::net::TcpStream>> },
 }
 
 impl TPeer {
-    fn stream(&mut self) -> &mut std::net::TcpStream {
+    pub(super) fn stream(&mut self) -> &mut std::net::TcpStream {
         match self {
             TPeer::Tcp { s, .. } => s,
             TPeer::Ws { ws } => ws.get_mut(),
@@ -201,7 +201,7 @@ impl TPeer {
     }
 
     /// Next request frame of the client, parsed by the independent codec. Ok(None): nothing inside the bound.
-    fn recv(&mut self, deadline: Instant) -> Result<Option<oracle::Frame>, String> {
+    pub(super) fn recv(&mut self, deadline: Instant) -> Result<Option<oracle::Frame>, String> {
         match self {
             TPeer::Tcp { s, buf } => loop {
                 if buf.len() >= oracle::HDR {
@@ -229,6 +229,8 @@ impl TPeer {
                 }
             },
             TPeer::Ws { ws } => loop {
+                // the client's socket may have Nagle on: do not sit on the acknowledgement of its previous small frame
+                quickack(ws.get_ref().as_raw_fd());
                 match ws.read() {
                     Ok(tung::Message::Binary(b)) => {
                         return match oracle::valid_parse(&b, true) {
@@ -249,12 +251,12 @@ impl TPeer {
         }
     }
 
-    fn close(&mut self) {
+    pub(super) fn close(&mut self) {
         let _ = self.stream().shutdown(std::net::Shutdown::Both);
     }
 }
 
-enum TCli {
+pub(super) enum TCli {
     B(Client),
     A(AsyncClient),
     W(WebSocketClient),
@@ -316,7 +318,7 @@ fn t_connect_once(rt: &Runtime, kind: Kind) -> Result<(TCli, TPeer), String> {
     }
 }
 
-fn t_connect(rt: &Runtime, kind: Kind) -> Result<(TCli, TPeer), String> {
+pub(super) fn t_connect(rt: &Runtime, kind: Kind) -> Result<(TCli, TPeer), String> {
     let mut last = String::new();
     for attempt in 0..12 {
         match t_connect_once(rt, kind) {
@@ -329,14 +331,14 @@ fn t_connect(rt: &Runtime, kind: Kind) -> Result<(TCli, TPeer), String> {
     Err(last)
 }
 
-fn t_val(r: Result<Value, RepeError>) -> TRes {
+pub(super) fn t_val(r: Result<Value, RepeError>) -> TRes {
     match r {
         Ok(v) => TRes::Val(v),
         Err(e) => TRes::Err(err_info(&e)),
     }
 }
 
-fn t_msg(r: Result<repe::Message, RepeError>) -> TRes {
+pub(super) fn t_msg(r: Result<repe::Message, RepeError>) -> TRes {
     match r {
         Ok(m) => TRes::Msg { id: m.header.id, notify: m.header.notify, ec: m.header.ec, qf: m.header.query_format, bf: m.header.body_format, query: m.query, body: m.body },
         Err(e) => TRes::Err(err_info(&e)),
@@ -344,7 +346,7 @@ fn t_msg(r: Result<repe::Message, RepeError>) -> TRes {
 }
 
 /// Start one call; its result travels through `tx` tagged with `tag`.
-fn t_issue(rt: &Runtime, cli: &TCli, tag: usize, api: TApi, path: String, body: Value, tx: mpsc::Sender<(usize, TRes)>) {
+pub(super) fn t_issue(rt: &Runtime, cli: &TCli, tag: usize, api: TApi, path: String, body: Value, tx: mpsc::Sender<(usize, TRes)>) {
     match cli {
         TCli::B(c) => {
             let c = c.clone();
@@ -527,7 +529,7 @@ fn plant_profile(rng: &mut Rng, profile: u8, cuts: &mut Vec<RawCut>, qlen: usize
     }
 }
 
-fn ws_header(fin: bool, opcode: u8, len: usize) -> Vec<u8> {
+pub(super) fn ws_header(fin: bool, opcode: u8, len: usize) -> Vec<u8> {
     let mut h = vec![((fin as u8) << 7) | opcode];
     if len < 126 {
         h.push(len as u8);
@@ -587,7 +589,7 @@ fn to_wire(rng: &mut Rng, kind: Kind, repe: &[u8], cuts: &[RawCut]) -> (Vec<u8>,
     (wire, wcuts, fragments, pings)
 }
 
-fn kind_char(k: Kind) -> char {
+pub(super) fn kind_char(k: Kind) -> char {
     match k {
         Kind::B => 'b',
         Kind::A => 'a',
@@ -596,7 +598,7 @@ fn kind_char(k: Kind) -> char {
 }
 
 /// Results that are in by `until` (or as soon as `want` slots have one).
-fn t_collect(rx: &mpsc::Receiver<(usize, TRes)>, outs: &mut [Option<(TRes, bool)>], base: usize, until: Instant, late: bool) {
+pub(super) fn t_collect(rx: &mpsc::Receiver<(usize, TRes)>, outs: &mut [Option<(TRes, bool)>], base: usize, until: Instant, late: bool) {
     while outs.iter().any(|o| o.is_none()) {
         let now = Instant::now();
         if now >= until {
@@ -872,7 +874,7 @@ fn run_conn(rt: &Runtime, seed: u64, p: &TPlan) -> THist {
     h
 }
 
-fn show_tres(r: &TRes) -> String {
+pub(super) fn show_tres(r: &TRes) -> String {
     match r {
         TRes::Val(v) => format!("Ok({})", trunc(&v.to_string(), 160)),
         TRes::Msg { id, notify, ec, bf, body, .. } => format!("Ok(message id {id} notify {notify} ec {ec} body_format {bf} body[{}] {})", body.len(), hex_trunc(body, 48)),
